@@ -200,7 +200,7 @@ fn c12_error_code_registry() {
     kani::cover!(true, "reached");
 }
 
-// @h props=C12 tier=quick t=120 expect=fail sub=twin
+// @h props=C12 tier=quick t=900 expect=fail sub=twin
 // @fn wtransport-proto/src/stream.rs StreamBiRemoteH3::read_frame
 // @bound twin: claims a WT signal is never delivered on a peer-opened request stream; must be refuted
 #[kani::proof]
